@@ -11,8 +11,20 @@
    named deviations of the pinned code.                                                        *)
 EXTENDS Quic, Json
 
-CONSTANTS CloseSet,     \* subset of {"local", "peer", "endpoint"}
-          Scenario      \* "conn" | "mix" | "zrtt" | "drop" | "closed2"
+CONSTANT Tier           \* "quick" | "thorough": which (scenario, close kind) pairs are enumerated
+
+\* scenario: "conn"    all connection-level kinds (+ endpoint-level kinds for endpoint close)
+\*           "mix"     a smaller kind set for the close kinds the quick tier does not enumerate fully
+\*           "zrtt"    two accepted_0rtt() waiters               (deviation 1)
+\*           "drop"    a dropped closed() future before the others block   (deviation 2)
+\*           "closed2" a second closed() waiter                   (deviation 2)
+Scenarios == {"conn", "mix", "zrtt", "drop", "closed2"}
+CloseFor(sc) ==
+  CASE sc = "conn"    -> (IF Tier = "quick" THEN {"local"} ELSE {"local", "peer", "endpoint"})
+    [] sc = "mix"     -> (IF Tier = "quick" THEN {"peer", "endpoint"} ELSE {})
+    [] sc = "zrtt"    -> {"local"}
+    [] sc = "drop"    -> {"local", "peer", "endpoint"}
+    [] sc = "closed2" -> {"local", "peer"}
 
 \* harness kinds in the order the harness polls them, and the model kind they are an instance of
 ConnKinds == <<"open_uni", "open_bi", "accept_uni", "accept_bi", "read", "write", "stopped",
@@ -28,20 +40,21 @@ ModelKind(h) ==
     [] OTHER -> h
 ToSet(q) == {q[i] : i \in 1..Len(q)}
 
-VARIABLES ck, blocked, out, phase
-gwvars == <<ck, blocked, out, phase>>
+VARIABLES Scenario, ck, blocked, out, phase
+gwvars == <<Scenario, ck, blocked, out, phase>>
 
 KindsFor(c) ==
   CASE Scenario = "conn" -> (IF c = "endpoint" THEN ConnKinds \o EpKinds ELSE ConnKinds)
     [] Scenario = "mix"  -> (<<"open_uni", "accept_bi", "read", "write", "closed">>
                               \o (IF c = "endpoint" THEN EpKinds ELSE <<>>))
     [] Scenario = "zrtt" -> ZrttKinds
-    [] Scenario = "drop" -> <<"accept_uni", "read", "write", "recv_datagram">>
+    [] Scenario = "drop" -> <<"accept_uni", "read", "write">>
     [] Scenario = "closed2" -> <<"closed", "closed_b", "read">>
 Sub(q, B) == SelectSeq(q, LAMBDA h : h \in B)
 
 GWInit == /\ Init                               \* the variables of Quic are not used
-          /\ ck \in CloseSet
+          /\ Scenario \in Scenarios
+          /\ ck \in CloseFor(Scenario)
           /\ \E B \in SUBSET ToSet(KindsFor(ck)) :
                /\ (Scenario = "closed2") => {"closed", "closed_b"} \subseteq B
                /\ (Scenario \in {"zrtt", "drop"}) => B # {}
@@ -78,7 +91,7 @@ GWNext == /\ phase = "start"
                  w == WokenBy(T) IN
              out' = [i \in 1..Len(blocked) |-> <<blocked[i], Result(blocked[i], w)>>]
           /\ phase' = "done"
-          /\ UNCHANGED <<vars, ck, blocked>>
+          /\ UNCHANGED <<vars, Scenario, ck, blocked>>
 
 GWSpec == GWInit /\ [][GWNext]_<<vars, gwvars>>
 
